@@ -356,12 +356,14 @@ def isArm : Ev → Bool
   | _ => false
 
 /-- `setCfg`, `crit`, `failNext`, `failBind` do not touch the links; a verdict `stamp` rewrites the four
-verdict fields (`weak`, `loss_degraded`, `cc_backing_off`, `cc_target_bps`) of one link and nothing else. -/
+verdict fields (`weak`, `loss_degraded`, `cc_backing_off`, `cc_target_bps`) of one link and nothing else;
+`syncTimeout` rewrites the timeout copy of every link and nothing else. -/
 theorem cfg_links (s : Sys F) (e : Ev) (h : isArm e = false) (j : Nat) (l : FLink F)
     (hl : s.links[j]? = some l) :
     ∃ l', (step s e).1.links[j]? = some l' ∧
-      (l' = l ∨ ∃ weak ld ccb cct,
-        l' = { l with weak := weak, lossDegraded := ld, ccBackingOff := ccb, ccTarget := cct }) := by
+      (l' = l ∨ (∃ weak ld ccb cct,
+        l' = { l with weak := weak, lossDegraded := ld, ccBackingOff := ccb, ccTarget := cct }) ∨
+       ∃ T, l' = { l with connTimeoutMs := T }) := by
   cases e with
   | client now pkt => cases h
   | uplink now cid data => cases h
@@ -379,7 +381,11 @@ theorem cfg_links (s : Sys F) (e : Ev) (h : isArm e = false) (j : Nat) (l : FLin
       rw [Uplink.stampLink_getElem?, hl]; rfl
     refine ⟨_, hg, ?_⟩
     split
-    · exact .inr ⟨weak, ld, ccb, cct, rfl⟩
+    · exact .inr (.inl ⟨weak, ld, ccb, cct, rfl⟩)
     · exact .inl rfl
+  | syncTimeout =>
+    refine ⟨{ l with connTimeoutMs := s.cfg.connTimeoutMs }, ?_, .inr (.inr ⟨_, rfl⟩)⟩
+    show (s.links.map fun l => ({ l with connTimeoutMs := s.cfg.connTimeoutMs } : FLink F))[j]? = _
+    rw [List.getElem?_map, hl]; rfl
 
 end Srtla.SelShell
